@@ -7,7 +7,7 @@ RULE = ("random histories over 7 names x 6 UIDs per calendar (UIDs differing onl
         "overwrite keeping / changing the UID, conflicting creates and overwrites, delete, delete-and-reuse, POST, restarts, on tree-git and bare-git through both front ends, and "
         "Store-API histories on vdir / bare-git / tree-git; oracle = uid->holder map recomputed from the *served* bodies by the harness's own parser at every audit; a no-uid-conflict "
         "answer is legitimate iff another live member holds the uploaded UID; distinct = distinct (backend, uid->holder map) states")
-WEIGHTS = {"put_new": 9, "put_same": 2, "put_reser": 1, "put_change": 4, "put_revert": 2, "put_invalid": 1, "put_cond": 1, "put_uidconflict": 7, "put_uidchange": 8, "post": 2,
+WEIGHTS = {"put_new": 9, "put_same": 2, "put_reser": 1, "put_change": 4, "put_revert": 2, "put_invalid": 1, "put_cond": 1, "put_uidconflict": 7, "put_uidchange": 8, "post": 5,
            "delete": 7, "delete_missing": 0.5, "delete_cond_stale": 0.5, "mkcol_new": 2.5, "mkcol_existing": 0.2, "delete_col": 2.0, "proppatch": 0.3, "read": 1, "restart": 0.6,
            "put_missing_col": 0.1, "put_nouid": 1.5}
 MON = [monitors.C06Monitor]
